@@ -686,4 +686,124 @@ theorem of_cyc (h : Heap) (hi : Inv h) (v : Int) (vs : List Int) :
   · rw [hof]
     exact (ofLoop_inv (v :: vs) _ h.size i2).1
 
+/-! ## observations relative to the cycle: `scan` (Each, Len) and `At` -/
+
+theorem cyc_length_le (h : Heap) (c : List Nat) (hc : Cyc h c) : c.length ≤ h.size := by
+  have := List.Nodup.length_le_of_subset hc.nodup (l₂ := List.range h.size)
+    (fun x hx => List.mem_range.mpr (hc.bound x hx))
+  simpa using this
+
+theorem scanLoop_lk (h : Heap) (r : Nat) : ∀ (l : List Nat) (cur fuel : Nat) (stop : Option Nat),
+    Lk h (cur :: l) r → r ∉ l → l.length + 1 ≤ fuel →
+    scanLoop h r fuel cur stop =
+      .ok (match stop with | none => cur :: l | some k => (cur :: l).take (k + 1)) := by
+  intro l
+  induction l with
+  | nil =>
+    intro cur fuel stop hl _ hf
+    obtain ⟨f, rfl⟩ : ∃ f, fuel = f + 1 := ⟨fuel - 1, by omega⟩
+    simp only [Lk, List.headD_nil, and_true] at hl
+    cases stop with
+    | none => simp [scanLoop, hl]
+    | some k => cases k <;> simp [scanLoop, hl]
+  | cons q l ih =>
+    intro cur fuel stop hl hr hf
+    obtain ⟨f, rfl⟩ : ∃ f, fuel = f + 1 := ⟨fuel - 1, by omega⟩
+    simp only [Lk, List.headD_cons] at hl
+    have hq : q ≠ r := fun e => hr (by simp [e])
+    have ih' := fun st => ih q f st hl.2 (fun hm => hr (by simp [hm])) (by simp at hf; omega)
+    cases stop with
+    | none => simp [scanLoop, hl.1, hq, ih']
+    | some k =>
+      cases k with
+      | zero => simp [scanLoop]
+      | succ k => simp [scanLoop, hl.1, hq, ih']
+
+/-- `Each` (stopped after `k+1` elements or never) and `Len` read the cycle from `r` -/
+theorem scan_cyc (h : Heap) (r : Nat) (l : List Nat) (hc : Cyc h (r :: l)) (stop : Option Nat) :
+    scan h (some r) stop = .ok (match stop with | none => r :: l | some k => (r :: l).take (k + 1)) := by
+  have hn := hc.nodup; rw [List.nodup_cons] at hn
+  have := cyc_length_le h _ hc
+  simp only [List.length_cons] at this
+  exact scanLoop_lk h r l r (h.size + 1) stop (by simpa using hc.lk) hn.1 (by omega)
+
+/-- paths of an arbitrary step function (used for `next` and for `prev`) -/
+def LkF (f : Nat → Nat) : List Nat → Nat → Prop
+  | [], _ => True
+  | a :: l, e => f a = l.headD e ∧ LkF f l e
+
+theorem lk_eq_lkF (h : Heap) (c : List Nat) (e : Nat) : Lk h c e ↔ LkF h.nx c e := by
+  induction c with
+  | nil => simp [Lk, LkF]
+  | cons a l ih => simp [Lk, LkF, ih]
+
+theorem lkF_append (f : Nat → Nat) (l1 l2 : List Nat) (e : Nat) :
+    LkF f (l1 ++ l2) e ↔ LkF f l1 (l2.headD e) ∧ LkF f l2 e := by
+  induction l1 with
+  | nil => simp [LkF]
+  | cons a l ih =>
+    simp only [List.cons_append, LkF, ih]
+    have : (l ++ l2).headD e = l.headD (l2.headD e) := by cases l <;> simp
+    rw [this]
+    constructor
+    · rintro ⟨h1, h2, h3⟩; exact ⟨⟨h1, h2⟩, h3⟩
+    · rintro ⟨⟨h1, h2⟩, h3⟩; exact ⟨h1, h2, h3⟩
+
+/-- walking `prev` reads a `next`-path backwards -/
+theorem lkF_reverse (h : Heap) (hi : Inv h) : ∀ (l : List Nat) (a e : Nat),
+    (∀ i ∈ a :: l, i < h.size) → LkF h.nx (a :: l) e → LkF h.pv (e :: l.reverse) a := by
+  intro l
+  induction l with
+  | nil =>
+    intro a e hb hl
+    simp only [LkF, List.headD_nil, and_true] at hl
+    simp only [List.reverse_nil, LkF, List.headD_nil, and_true]
+    rw [← hl]; exact hi.pn a (hb a (by simp))
+  | cons q l ih =>
+    intro a e hb hl
+    simp only [LkF, List.headD_cons] at hl
+    have := ih q e (fun i hi' => hb i (by simp [hi'])) (by simpa [LkF] using hl.2)
+    rw [List.reverse_cons, ← List.cons_append, lkF_append]
+    refine ⟨by simpa using this, ?_⟩
+    simp only [LkF, List.headD_nil, and_true]
+    rw [← hl.1]; exact hi.pn a (hb a (by simp))
+
+/-- the loop of `At` along any step function: the element at offset `n`, nil once the start comes up again -/
+theorem atLoop_lkF (f : Nat → Nat) (r : Nat) : ∀ (n : Nat) (l : List Nat) (cur : Nat),
+    LkF f (cur :: l) r → r ∉ l →
+    atLoop f r n cur = if n ≤ l.length then (cur :: l)[n]? else none := by
+  intro n
+  induction n with
+  | zero => intro l cur _ _; simp [atLoop]
+  | succ n ih =>
+    intro l cur hl hr
+    simp only [LkF] at hl
+    cases l with
+    | nil => simp at hl; simp [atLoop, hl]
+    | cons q l =>
+      simp only [List.headD_cons] at hl
+      have hq : q ≠ r := fun e => hr (by simp [e])
+      simp only [atLoop, hl.1, hq, if_false]
+      rw [ih l q hl.2 (fun hm => hr (by simp [hm]))]
+      simp
+
+/-- `At(n)`: offset `n ≥ 0` along `next`, offset `-n` along `prev` (= the cycle read backwards); nil
+as soon as `|n|` reaches the length of the cycle -/
+theorem at_cyc (h : Heap) (hi : Inv h) (r : Nat) (l : List Nat) (hc : Cyc h (r :: l)) (n : Nat) :
+    at_ h (some r) (n : Int) = (if n ≤ l.length then (r :: l)[n]? else none) ∧
+    at_ h (some r) (-(n : Int)) = (if n ≤ l.length then (r :: l.reverse)[n]? else none) := by
+  have hn := hc.nodup; rw [List.nodup_cons] at hn
+  have hl : LkF h.nx (r :: l) r := (lk_eq_lkF h _ _).mp (by simpa using hc.lk)
+  have hp : LkF h.pv (r :: l.reverse) r := lkF_reverse h hi l r r hc.bound hl
+  constructor
+  · have : ¬ ((n : Int) < 0) := by omega
+    simp only [at_, this, if_false, Int.toNat_natCast]
+    exact atLoop_lkF h.nx r n l r hl hn.1
+  · by_cases h0 : n = 0
+    · subst h0; simp [at_, atLoop]
+    · have : (-(n : Int)) < 0 := by omega
+      simp only [at_, this, if_true, Int.neg_neg, Int.toNat_natCast]
+      have := atLoop_lkF h.pv r n l.reverse r hp (by simpa using hn.1)
+      simpa using this
+
 end MdsVerif.Proofs.Ring
